@@ -88,10 +88,11 @@ Definition is_all_digits (s : string) : bool :=
 Definition count_digits_hash (s : string) : Z :=
   Z.of_nat (List.length (filter (fun b => is_digit_byte b || (b =? 35)) (bytes_of s))).
 
-(* pow10 with int64 wrap-around: 10^n mod 2^64 = 0 from n = 64 on.
-   (Go needs n loop iterations; for astronomically large n it simply does not return.) *)
-Definition pow10 (n : Z) : Z :=
-  if n <=? 0 then 1 else if 64 <=? n then 0 else wrap64 (10 ^ n).
+(* lastDigits(n, count) (as repaired; replaces y % pow10(size)): n truncated (Go's %) to its
+   last count decimal digits; 10^count no longer fits an int64 from count = 19 on, and then n
+   is returned unchanged *)
+Definition last_digits (n count : Z) : Z :=
+  if count <=? 0 then Z.rem n 1 else if 19 <=? count then n else Z.rem n (10 ^ count).
 
 (* strings.LastIndexByte *)
 Fixpoint last_index_byte_aux (s : string) (b : Z) (i : nat) (acc : option nat) : option nat :=
@@ -188,6 +189,20 @@ Definition pad_right (s : string) (minw : Z) : lres string :=
       if max_padding <? padding then LFuel
       else LOk (s ++ srepeat " " (Z.to_nat padding))
     else LOk s
+  else LOk s.
+
+(* the zero padding of formatIntegerComponent (as repaired): up to the minimum width, after
+   the sign of a negative number *)
+Definition pad_left_zeros (s : string) (minw : Z) : lres string :=
+  let padding := minw - Z.of_nat (rune_count s) in
+  if 0 <? padding then
+    if max_padding <? padding then LFuel
+    else
+      let zeros := srepeat "0" (Z.to_nat padding) in
+      match s with
+      | String c r => if ascii_eqb c "-" then LOk (String "-" (zeros ++ r)) else LOk (zeros ++ s)
+      | EmptyString => LOk (zeros ++ s)
+      end
   else LOk s.
 
 (* positionOfNthRune *)
@@ -303,10 +318,11 @@ Variable format_integer : Z -> string -> lres string.
 (* formatIntegerComponent *)
 Definition format_integer_component (n : Z) (mk : marker) : lres string :=
   lbind (format_integer n (mk_format mk)) (fun s =>
+  lbind (pad_left_zeros s (mk_minw mk)) (fun s =>
   match mk_modifier mk with
   | ModOrdinal => LOk (s ++ ordinal_suffix n)
   | _ => LOk s
-  end).
+  end)).
 
 Definition format_year (t : gotime) (mk : marker) : lres string :=
   if negb (is_decimal_format (mk_format mk)) then err_unsupported
@@ -317,10 +333,7 @@ Definition format_year (t : gotime) (mk : marker) : lres string :=
                   if 2 <=? n then n else size
                 else size in
     let y := t_year t in
-    if 0 <? size then
-      let p := pow10 size in
-      if p =? 0 then LPanic "integer divide by zero"
-      else format_integer_component (Z.rem y p) mk
+    if 0 <? size then format_integer_component (last_digits y size) mk
     else format_integer_component y mk.
 
 Definition format_month (t : gotime) (mk : marker) : lres string :=
@@ -361,21 +374,23 @@ Definition format_nanosecond (t : gotime) (mk : marker) : lres string :=
     if (l =? 1) || negb (is_all_digits (mk_format mk)) then LOk (format_nano (t_nanosecond t) 9)
     else LOk (format_nano (t_nanosecond t) l).
 
+(* timezoneSign (as repaired): hours and minutes both carry the sign of the offset *)
+Definition timezone_sign (h m : Z) : string := if (h <? 0) || (m <? 0) then "-" else "+".
+
 Definition format_timezone_short (h m : Z) (layout : string) : lres string :=
-  lbind (format_integer h layout) (fun tz =>
-  let tz := if 0 <=? h then String "+" tz else tz in
+  lbind (format_integer (Z.abs h) layout) (fun tz =>
+  let tz := timezone_sign h m ++ tz in
   LOk (if negb (m =? 0) then tz ++ ":" ++ pad2 (Z.abs m) else tz)).
 
 Definition format_timezone_long (h m : Z) (layout : string) : lres string :=
-  lbind (format_integer (h * 100 + m) layout) (fun tz =>
-  LOk (if 0 <=? h then String "+" tz else tz)).
+  lbind (format_integer (Z.abs h * 100 + Z.abs m) layout) (fun tz =>
+  LOk (timezone_sign h m ++ tz)).
 
 Definition format_timezone_split (h : Z) (layout_h : string) (m : Z) (layout_m sep : string)
   : lres string :=
-  lbind (format_integer h layout_h) (fun hh =>
+  lbind (format_integer (Z.abs h) layout_h) (fun hh =>
   lbind (format_integer (Z.abs m) layout_m) (fun mm =>
-  let tz := hh ++ sep ++ mm in
-  LOk (if 0 <=? h then String "+" tz else tz))).
+  LOk (timezone_sign h m ++ hh ++ sep ++ mm))).
 
 Definition is_traditional (m : fmodifier) : bool :=
   match m with ModTraditional => true | _ => false end.
